@@ -4,6 +4,7 @@ From Coq Require Import ZArith List String Bool Arith Lia.
 From PAFC13 Require Import Model.
 Import ListNotations.
 Open Scope list_scope.
+Local Opaque FUEL.
 
 (* ------------------------------------------------------------------ generic list facts *)
 Lemma nth_error_update_eq : forall {A} (l : list A) i x, i < List.length l -> nth_error (update l i x) i = Some x.
@@ -164,7 +165,7 @@ Proof.
   { intros s. unfold p_attr. now rewrite has_obj_thaw, Hp. }
   assert (Hu : p_unique (thaw st) o = p_unique st o).
   { unfold p_unique. now rewrite has_obj_thaw, Ha. }
-  destruct k; simpl; auto.
+  destruct k; cbn [pure_key]; [apply Hp|apply Ha|exact Hu| |].
   - unfold p_ordered. now rewrite has_obj_thaw, Hu.
   - unfold p_direct. rewrite get_thaw. destruct (get st o); simpl; auto. now rewrite direct_items_thaw.
 Qed.
@@ -188,7 +189,7 @@ Proof.
   assert (Hu : call_unique o (thaw st) = (thaw st, p_unique st o)).
   { unfold call_unique. rewrite cached_thaw. unfold p_unique. destruct (has_obj st o); auto.
     unfold body_unique, bind. rewrite Ha. destruct (p_attr st o SPrior) as [[l|]|e]; reflexivity. }
-  destruct k; simpl; auto.
+  destruct k; cbn [pure_key call_key]; [apply Hp|apply Ha|exact Hu| |].
   - unfold call_ordered. rewrite cached_thaw. unfold p_ordered. destruct (has_obj st o); auto.
     unfold body_ordered, bind. rewrite Hu. destruct (p_unique st o) as [[l|]|e]; reflexivity.
   - unfold call_direct. rewrite cached_thaw. unfold p_direct, has_obj.
